@@ -28,21 +28,36 @@ def run(ctx):
     cases += walks
     ctx.tick("model_check+gen")
     recs = P.run_pipe(ctx, cases)
+    # real skip flags: files whose blocks hold one element type each; every one of the 8 flag combinations empties whole blocks
+    sk = []
+    for n in ([1, 3] if q else [1, 2, 3, 16]):
+        for skip in range(8):
+            for nb in ([5] if q else [4, 7]):
+                for variant in range(3):
+                    for header in (True, False):
+                        sk.append({"kind": "skipresume", "nb": nb, "n": n, "skip": [bool(skip & 1), bool(skip & 2), bool(skip & 4)],
+                                   "variant": variant, "header": header, "cfg": {"n": n, "blocks": [], "endkind": "eof", "hdr": "ok"}})
+    srecs = P.run_pipe(ctx, sk, binname="pbfdmg")
+    for r in srecs:
+        r.setdefault("trace", []), r.setdefault("sched", []), r.setdefault("diverged", "")
+    cases, recs = cases + sk, recs + srecs
+    ctx.extra["skip_flag_runs"] = len(sk)
     ctx.tick("runs")
     nres = 0
     for c, r in zip(cases, recs):
         nres += len(r["run"].get("resume", []))
-        ctx.note_case([c["cfg"], c["kind"], r["sched"]], nontrivial=len(c["cfg"]["blocks"]) > 1)
+        ctx.note_case([c["cfg"], c["kind"], r["sched"], c.get("skip"), c.get("variant"), c.get("nb"), c.get("header")],
+                      nontrivial=len(r["run"]["cfg"]["blocks"]) > 1)
     ctx.extra["resumed_scans"] = nres
     ctx.samples = [{"case": recs[0]["case"], "run": recs[0]["run"]}]
     P.validate_traces(ctx, recs)
     ctx.tick("trace_validation")
     bad = P.judge_runs(ctx, recs, PREF)
-    P.confirm(ctx, cases, recs, bad, PREF, lambda cs: P.run_pipe(ctx, cs, shards=1))
+    P.confirm(ctx, cases, recs, bad, PREF, lambda cs: [x for c in cs for x in P.run_pipe(ctx, [c], shards=1, binname=("pbfdmg" if c["kind"] == "skipresume" else "pbfpipe"))])
     ctx.tick("judge")
     ctx.rule = ("evaluations = scans of the real scanner (one full scan + one resumed scan per distinct reported offset, per configuration; "
                 "plus scheduler walks); distinct = distinct (configuration, kind, schedule); non-trivial = more than one block")
-    ctx.assumptions = ["empty blocks are rendered as data blocks without primitive groups (what skip flags produce is covered by C08's files)"]
+    ctx.assumptions = ["empty blocks: data blocks without primitive groups (pipeline runs) and blocks emptied by each of the 8 skip-flag combinations (skipresume runs)"]
 
 
 def replay(ctx, rp):
